@@ -9,6 +9,46 @@ BASELINE_OFF = ("cd /repo && env -u EVO_VERIF /venv/bin/python -m pytest -ra -q 
 
 # id -> (category, technique, level text, level note, design ref)
 CHECKS = {
+    "C03": ("exploration", "runtime contract on umeyama_alignment vs Horn closed form + perturbation cloud",
+            "Every observed call of the real umeyama_alignment (direct and at its call site inside "
+            "PosePath3D.align) is judged: proper rotation, positive/unit scale, SSE not above Horn's "
+            "independent closed-form optimum nor any perturbed candidate, noise-free reproduction, "
+            "equivariance under rigid motion/permutation/scaling, refusal of exactly degenerate and "
+            "unequal input with GeometryException; thousands of generated point sets per run across "
+            "generic/planar/near-collinear/noisy/mirrored/offset/scale classes.",
+            "numpy eigh (Horn); SVD only classifies inputs; tolerances scale-aware (1e-9 relative + "
+            "rounding model of the common offset)", "DESIGN.md §3 C03"),
+    "C04": ("exploration", "runtime contract on PosePath3D.align/align_origin and on ape()/rpe() results",
+            "The generating arrays are the exact pre-state; after each real align/align_origin call "
+            "all views of the estimate are compared with an own application of the returned "
+            "similarity, the reference is snapshot-compared, optimality is judged as in C03, poses "
+            "beyond n are perturbed (bit-identical result required), re-alignment must be the "
+            "identity, and the matrix recorded by main_ape.ape()/main_rpe.rpe() must map the "
+            "unaligned estimate onto the stored one for all five admitted mode combinations.",
+            "same as C03; PosePath3D built from copies so the generator arrays are the pre-state",
+            "DESIGN.md §3 C04"),
+    "C05": ("exploration", "runtime contract on associate_trajectories/matching_time_indices vs exact-rational nearest-neighbour model",
+            "Each real association is mapped back to input indices through the timestamps, every "
+            "output pose is compared bit for bit (all views) with the input pose, and the pair list "
+            "is judged in exact rational arithmetic: within max_diff, nearest counterpart, "
+            "uncontested in-range poses paired, strictly increasing (no pose twice), refusal iff "
+            "nothing matches, inputs untouched; dyadic workloads make the <= boundary exact.",
+            "fractions.Fraction; 4-ulp band at inexact boundaries only", "DESIGN.md §3 C05"),
+    "C10": ("exploration", "clause checkers over evo's returned pair lists; bounded-exhaustive exact grids + random",
+            "All step sequences {0..3}^(n-1) for n up to 6 (quick) / 8 (thorough) poses with pi/8 "
+            "rotation grids are enumerated for every delta/tolerance on the grid and every unit and "
+            "mode (tol = 0 for path lengths), plus random sequences up to 3000 poses; each returned "
+            "list is checked clause by clause (range, chain, first pose reaching delta, start, "
+            "continuation, closest end, band membership both ways, FilterException iff empty).",
+            "integer path lengths exact in float64; angles three-valued within 1e-9 rad", "DESIGN.md §3 C10"),
+    "C11": ("exploration", "runtime contracts with index recovery + clause checkers on the real selection operations",
+            "downsample, motion_filter/filter_by_motion, reduce_to_time_range, split_* and merge are "
+            "called on generated trajectories (exact grids and random, both storage modes); kept "
+            "poses are mapped back to input indices and compared bit for bit in all views; counts, "
+            "end points, spacing, threshold clauses (both directions, exact hits on grids), "
+            "partition and union-multiset clauses are evaluated on evo's own output.",
+            "unique stamps / unique poses identify kept poses; 1e-9*scale band at inexact thresholds",
+            "DESIGN.md §3 C11"),
     "C09": ("exploration", "runtime law monitors on the real Lie helpers (seeded hostile generators)",
             "Every group law of the statement is evaluated by a monitor on the real helpers for "
             "thousands of generated rotations/poses/similarities per run incl. angles within 1e-16 "
